@@ -4,6 +4,7 @@ per line. `arcadrv <command> [args]`.
 -/
 import Arca.Driver.Loop
 import Arca.Driver.Builtins
+import Arca.Driver.Parse
 
 open Lean (Json)
 open Arca.Driver
@@ -31,4 +32,5 @@ def main (args : List String) : IO UInt32 := do
   match args with
   | "loop" :: rest => cmdLoop rest; return 0
   | "builtins" :: rest => cmdBuiltins rest; return 0
+  | "parse" :: rest => cmdParse rest; return 0
   | _ => IO.eprintln "usage: arcadrv loop [errCap]"; return 2
